@@ -93,6 +93,92 @@ pub fn mont_small(m: u8) -> Fq {
     Fq::from_slice(&w).unwrap() * r.inverse().unwrap()
 }
 
+// ---------------------------------------------------------------- representatives with a CHOSEN raw coordinate
+// (X, Y, Z) ~ (l^2 X, l^3 Y, l Z): a raw coordinate can be steered to any value c for which c/X is a square (x), c/Y a cube (y),
+// or freely (z).  Used to build operands whose raw coordinates coincide with small constants (Y = 1/2 makes the first doubling
+// return the base's own z) or with the coordinates of ANOTHER operand (common-z additions, equal raw x or y of different points).
+const CBRT_EXP_Q: [u8; 32] = hex!("28800000009625194c00d0bc6f750fd67952599ee970a6db8851b0b387d92be3");   // (2q+1)/9, q = 4 mod 9
+const CBRT_EXP_Q2: [u8; 64] = hex!("0e6a9000006ae3e9425c5abd0425363b319c221ffdc95d55c1cd90293f08a91c503de4a47aa373cd0411f23c4be8776b1c1ce18d701421209859c091a2e28373"); // (q^2+2)/9, q^2 = 7 mod 9
+pub fn fq_cbrt(c: Fq) -> Option<Fq> {
+    let l = c.pow(Fq::from_slice(&CBRT_EXP_Q)?);
+    if l * l * l == c { Some(l) } else { None }
+}
+pub fn fq2_inv(a: Fq2) -> Option<Fq2> {
+    let (re, im) = (a.real(), a.imaginary());
+    let n = (re * re + (im * im + im * im)).inverse()?;          // norm a0^2 + 2 a1^2 (u^2 = -2)
+    Some(Fq2::new(re * n, -(im * n)))
+}
+pub fn fq2_pow_bytes(a: Fq2, e: &[u8]) -> Fq2 {
+    let mut acc = Fq2::one();
+    for byte in e {
+        for i in (0..8).rev() {
+            acc = acc * acc;
+            if (byte >> i) & 1 == 1 {
+                acc = acc * a;
+            }
+        }
+    }
+    acc
+}
+pub fn fq2_cbrt(c: Fq2) -> Option<Fq2> {
+    let l = fq2_pow_bytes(c, &CBRT_EXP_Q2);
+    if l * l * l == c { Some(l) } else { None }
+}
+pub fn g1_scale(p: G1, l: Fq) -> G1 {
+    let l2 = l * l;
+    G1::new(p.x() * l2, p.y() * l2 * l, p.z() * l)
+}
+pub fn g2_scale(p: G2, l: Fq2) -> G2 {
+    let l2 = l * l;
+    G2::new(p.x() * l2, p.y() * l2 * l, p.z() * l)
+}
+/// the representative of (non-identity) p whose raw coordinate `which` (0 x, 1 y, 2 z) is c, when there is one
+pub fn g1_coord(p: G1, which: usize, c: Fq) -> Option<G1> {
+    if p.is_zero() || c.is_zero() {
+        return None;
+    }
+    let l = match which {
+        0 => (c * p.x().inverse()?).sqrt()?,
+        1 => fq_cbrt(c * p.y().inverse()?)?,
+        _ => c * p.z().inverse()?,
+    };
+    let r = g1_scale(p, l);
+    let got = [r.x(), r.y(), r.z()][which.min(2)];
+    if got == c { Some(r) } else { None }
+}
+pub fn g2_coord(p: G2, which: usize, c: Fq2) -> Option<G2> {
+    if p.is_zero() || c.is_zero() {
+        return None;
+    }
+    let l = match which {
+        0 => (c * fq2_inv(p.x())?).sqrt()?,
+        1 => fq2_cbrt(c * fq2_inv(p.y())?)?,
+        _ => c * fq2_inv(p.z())?,
+    };
+    let r = g2_scale(p, l);
+    let got = [r.x(), r.y(), r.z()][which.min(2)];
+    if got == c { Some(r) } else { None }
+}
+/// small constants a raw coordinate may coincide with: 1/2, -1/2, 1, -1, 2, and the element whose Montgomery limbs are 1
+pub fn small_const<R: Rng>(rng: &mut R) -> Fq {
+    let two = Fq::one() + Fq::one();
+    match rng.gen_range(0..7) {
+        0 | 1 => two.inverse().unwrap(),
+        2 => -two.inverse().unwrap(),
+        3 => Fq::one(),
+        4 => -Fq::one(),
+        5 => two,
+        _ => mont_small(1),
+    }
+}
+pub fn small_const2<R: Rng>(rng: &mut R) -> Fq2 {
+    let c = small_const(rng);
+    match rng.gen_range(0..4) {
+        0 => Fq2::new(Fq::zero(), c),
+        _ => Fq2::new(c, Fq::zero()),
+    }
+}
+
 /// A Jacobian representative (X, Y, Z) of a point of E(Fq) built so that its NORMALISATION performs a chosen multiplication:
 /// to_affine computes X * zinv^2; with (a, b) a TLC-generated operand pair (quotient-pattern / V-boundary family) and b a square,
 /// zinv = sqrt(b), X = a, the affine x is a*b.  Returns None when b is not a square or a*b carries no point.
@@ -129,7 +215,15 @@ pub fn g1_rep<R: Rng>(rng: &mut R, p: G1, tag: &str) -> G1 {
             q
         }
         "S" => {
-            let l = match rng.gen_range(0..6) {
+            let sel = rng.gen_range(0..8);
+            if sel >= 6 {
+                // a raw x or y coordinate steered to a small constant (when such a representative exists)
+                let (which, c) = (rng.gen_range(0..3usize).min(1), small_const(rng));
+                if let Some(r) = g1_coord(p, which, c) {
+                    return r;
+                }
+            }
+            let l = match sel {
                 0 => Fq::one() + Fq::one(),
                 1 => -Fq::one(),
                 2 => mont_small(rng.gen_range(1..4)),       // z whose Montgomery limbs are a tiny integer
@@ -173,7 +267,14 @@ pub fn g2_rep<R: Rng>(rng: &mut R, p: G2, tag: &str) -> G2 {
         "S" => {
             // lambda: 2, -1, i, a purely imaginary element, a real element, a general element
             // (z shares a component with a special constant without being it: real part 1, imaginary part 1, real part 0 ...)
-            let l = match rng.gen_range(0..13) {
+            let sel = rng.gen_range(0..16);
+            if sel >= 13 {
+                let (which, c) = (rng.gen_range(0..3usize).min(1), small_const2(rng));
+                if let Some(r) = g2_coord(p, which, c) {
+                    return r;
+                }
+            }
+            let l = match sel {
                 11 => Fq2::new(mont_small(rng.gen_range(1..4)), Fq::zero()),
                 12 => Fq2::new(Fq::zero(), mont_small(1)),
                 0 => Fq2::one() + Fq2::one(),
